@@ -63,6 +63,9 @@ var c16Shared = map[string]string{
 	"use3.p": "use(\"lib2.p\")\nif n > 10 {\n  use(\"lib2.p\")\n}\nuse(\"lib2.p\")\n",
 	"use5.p": "use(\"lib2.p\")\nuse(\"lib2.p\")\nfor i = 0; i < 2; i = i + 1 {\n  use(\"lib2.p\")\n}\nuse(\"use3.p\")\nuse(\"lib2.p\")\n",
 	"use6.p": "use(\"lib2.p\")\nuse(\"lib2.p\")\nuse(\"lib2.p\")\nuse(\"lib2.p\")\nuse(\"lib2.p\")\nuse(\"use5.p\")\n",
+	// a run that fails inside a block after assigning top-level variables, and scripts that read names they never assign
+	"leak.p":   "w = message\nq = [n, n]\nif n % 3 == 0 {\n  for i = 0; i < 2; i = i + 1 {\n    x = 1 / zero_is_nil\n  }\n}\nadd_key(out, w)\n",
+	"reader.p": "add_key(seen_w, w)\nadd_key(seen_q, q)\nadd_key(seen_x, x)\nif true {\n  w = \"mine\"\n}\nadd_key(seen_w2, w)\n",
 	// a callee whose builtin fails at run time with an error built from load-time data
 	"dtfail.p": "add_key(c1, 1)\nuse(\"dtbad.p\")\nadd_key(c2, 2)\n",
 	"dtbad.p":  "add_key(ts3, 1700000000)\ndatetime(ts3, \"s\", \"no-such-layout-name\")\nadd_key(after_dt, 1)\n",
@@ -132,7 +135,7 @@ func (k c16) Run(c *mon.Ctx, workload string, i int64) {
 		c.Violate("shared-set-rejected", fmt.Sprint(errs), nil)
 		return
 	}
-	runnable := []string{"grok.p", "use.p", "mix.p", "lib2.p", "usefail.p", "usefail.p", "use3.p", "use5.p", "use6.p", "zones.p", "zones.p", "dtfail.p", "dtbad.p"}
+	runnable := []string{"grok.p", "use.p", "mix.p", "lib2.p", "usefail.p", "usefail.p", "use3.p", "use5.p", "use6.p", "zones.p", "zones.p", "dtfail.p", "dtbad.p", "leak.p", "leak.p", "reader.p", "reader.p"}
 	// generated sources for the parsers
 	var genSrcs []string
 	for j := 0; j < 20; j++ {
